@@ -66,7 +66,7 @@ class SimpleContractSetup(Contract):
         out = []
         for price in (None, 'p'):
             for costs_only in (False, True):
-                for tg in ('given', 'preset'):
+                for tg in ('given', 'preset', 'same'):
                     out.append(dict(price=price, costs_only=costs_only, tg=tg))
         return out
 
@@ -88,6 +88,14 @@ class SimpleContractSetup(Contract):
             g.set('discount_factors', Arr(g.get('T'), lambda k: df(lift(k))))
             g.set('restricted', R)
             tg_arg = None
+        elif case['tg'] == 'same':
+            # the asset already holds this very grid object, whose derived cache was overwritten by ANOTHER asset since
+            # (other window, other wacc): the set-up has to rebuild it all the same (C10 / C20: no short cut on identity)
+            self_obj.set('timegrid', g)
+            sdf = disc_fun(H, 'stale')
+            g.set('restricted', mk_restricted(H, g, pfx='stale', df=sdf))
+            g.set('discount_factors', Arr(g.get('T'), lambda k: sdf(lift(k))))
+            tg_arg = g
         else:
             # derived cache holds arbitrary left-overs of earlier calls (C10.functional)
             g.set('restricted', Havoc('stale cache: restricted grid of an earlier set-up'))
@@ -222,7 +230,13 @@ class SimpleContractSetup(Contract):
         node = eao.assets.Node('node0')
         a = eao.assets.SimpleContract(name='asset_name', nodes=node, start=start, end=end, wacc=float(P['wacc']),
                                       price=case['price'], min_cap='min_cap_s', max_cap='max_cap_s', extra_costs='ec_s')
-        if case['tg'] == 'preset':
+        if case['tg'] == 'same':
+            a.set_timegrid(tg)
+            _pts = list(tg.timepoints) + [tg.end]
+            _other = eao.assets.SimpleContract(name='other asset', nodes=eao.assets.Node('elsewhere'), start=_pts[min(1, len(_pts) - 1)], end=_pts[-1], wacc=0.37)
+            _other.set_timegrid(tg)      # overwrites the shared grid's restricted part and discount factors
+            call = lambda: a.setup_optim_problem(prices, tg, case['costs_only'])
+        elif case['tg'] == 'preset':
             a.set_timegrid(tg)
             call = lambda: a.setup_optim_problem(prices, None, case['costs_only'])
         else:
